@@ -11,22 +11,27 @@ Definition word := str.
 Definition wlen (w : word) : Z := len w.
 
 (* ---- markdown_escape_word ----
-   _md_numeral_pat  = ^[0-9]+[.)]$      _md_specials_pat = ^([-*+>]|#+)$
+   _md_numeral_pat  = ^[0-9]+[.)]$      _md_specials_pat = a run of [-*+_=], or > followed by anything,
+   or a run of #, or a word starting with three backticks or three tildes (DOTALL)
    used with .match(); `$` also matches before one final "\n". *)
 Definition is_dot_paren (c : N) : bool := (N.eqb c 46) || (N.eqb c 41).
-Definition is_bullet_gt (c : N) : bool :=
-  (N.eqb c 45) || (N.eqb c 42) || (N.eqb c 43) || (N.eqb c 62).
 
 Definition numeral_core (w : str) : bool :=
   match rev w with
   | c :: ds => is_dot_paren c && negb (is_nil ds) && forallb is_ascii_digit ds
   | [] => false
   end.
+Definition is_rule_char (c : N) : bool :=
+  (N.eqb c 45) || (N.eqb c 42) || (N.eqb c 43) || (N.eqb c 95) || (N.eqb c 61).   (* - * + _ = *)
 Definition specials_core (w : str) : bool :=
   match w with
-  | [c] => is_bullet_gt c || N.eqb c 35
-  | _ :: _ => forallb (N.eqb 35) w
   | [] => false
+  | c :: _ =>
+      forallb is_rule_char w
+      || N.eqb c 62                                   (* >.* *)
+      || forallb (N.eqb 35) w                         (* #+ *)
+      || startswith w [96; 96; 96]%N                  (* ```.* *)
+      || startswith w [126; 126; 126]%N               (* ~~~.* *)
   end.
 (* `$`: end of string, or just before a final newline *)
 Definition dollar (core : str -> bool) (w : str) : bool :=
